@@ -314,3 +314,94 @@ pub fn three_clients(property: &'static str) -> ReplCell {
     };
     c
 }
+
+/// The server tick crosses `u32::MAX -> 0` during the history: mutations and structural changes
+/// of the same entities on both sides of the wrap point.
+pub fn wrap(property: &'static str, back: u32) -> ReplCell {
+    let mut c = base(&format!("wrap-{back}"), property);
+    c.cfg.tick_offset = u32::MAX - back;
+    c.init = vec![Op::Spawn(0, AB), Op::Spawn(1, M_A)];
+    c.alphabet = vec![
+        Op::Nop,
+        Op::Mut(0, TA),
+        Op::Mut(0, TB),
+        Op::Rm(0, TB),
+        Op::Ins(0, TB),
+        Op::Mut(1, TA),
+        Op::Despawn(1),
+    ];
+    c.tick_choice = false;
+    c.env = Env {
+        hold_acks: true,
+        hold_updates: 1,
+        mutations: MutMenu::Full,
+        leftover_choice: false,
+        lossy: false,
+    };
+    c
+}
+
+/// Several despawns in one tick under a list policy, with hidden entities between them: the
+/// despawn records of one client must not be merged across entities it never saw.
+pub fn vis_despawns(property: &'static str, vis: Vis) -> ReplCell {
+    let tag = if vis == Vis::Blacklist { "black" } else { "white" };
+    let mut c = base(&format!("vis-despawns-{tag}"), property);
+    c.cfg.vis = vis;
+    c.cfg.clients = vec![1200, 1200];
+    c.init = vec![Op::Spawn(0, M_A), Op::Spawn(1, M_A), Op::Spawn(2, M_A), Op::Spawn(3, M_A)];
+    if vis == Vis::Whitelist {
+        for cl in 0..2u8 {
+            for e in 0..4u8 {
+                if !(cl == 0 && e == 1) {
+                    c.init.push(Op::Vis(cl, e, true));
+                }
+            }
+        }
+    } else {
+        c.init.push(Op::Vis(0, 1, false));
+    }
+    c.ops_per_round = 2;
+    c.alphabet = vec![
+        Op::Nop,
+        Op::Despawn(0),
+        Op::Despawn(1),
+        Op::Despawn(2),
+        Op::Ins(3, TB),
+        Op::Vis(0, 3, false),
+        Op::Vis(1, 2, false),
+    ];
+    c.rounds = 2;
+    c.env = Env {
+        hold_acks: false,
+        hold_updates: 1,
+        mutations: MutMenu::Hold,
+        leftover_choice: false,
+        lossy: false,
+    };
+    c
+}
+
+/// Three operations per round on two entities: one entity's insertion / removal / mutation in the
+/// same tick as another entity's mutation of a different component.
+pub fn same_frame3(property: &'static str) -> ReplCell {
+    let mut c = base("same-frame3", property);
+    c.init = vec![Op::Spawn(0, M_A), Op::Spawn(1, AB)];
+    c.ops_per_round = 3;
+    c.alphabet = vec![
+        Op::Nop,
+        Op::Mut(0, TA),
+        Op::Ins(0, TB),
+        Op::Mut(1, TB),
+        Op::Mut(1, TA),
+        Op::Rm(1, TB),
+    ];
+    c.rounds = 1;
+    c.env = Env {
+        hold_acks: false,
+        hold_updates: 1,
+        mutations: MutMenu::Hold,
+        leftover_choice: false,
+        lossy: false,
+    };
+    c
+}
